@@ -89,6 +89,11 @@ class ExprMixin:
             if _is_object_call(r[1]):
                 return ("sentinel", r[2].name + "." + name)
             c = r[1]
+            if isinstance(c, ast.IfExp) and isinstance(c.body, ast.Name) and isinstance(c.orelse, ast.Name) \
+                    and {c.body.id, c.orelse.id} <= {"str", "bytes"} and self.prog.resolve(r[2], c.body.id) is None \
+                    and self.prog.resolve(r[2], c.orelse.id) is None:
+                # NAME = str if PY2 else bytes: the interpreter's native byte-string constructor either way
+                return ("builtin", "bytes")
             if isinstance(c, ast.Call) and isinstance(c.func, ast.Name) and not c.keywords and c.args \
                     and all(isinstance(a, ast.Constant) and isinstance(a.value, str) for a in c.args):
                 f = self.prog.resolve(r[2], c.func.id)
@@ -751,6 +756,12 @@ class ExprMixin:
             neg = ("cmp", NEG.get(t[1], "?"), t[2], t[3])
             if neg in st.facts:
                 return not st.facts[neg]
+            if t[1] in ("==", "!=") and is_const(t[3]):
+                # the same term is known to equal a different constant
+                for f, v in st.facts.items():
+                    if v is True and isinstance(f, tuple) and len(f) == 4 and f[0] == "cmp" and f[1] == "==" and f[2] == t[2] and is_const(f[3]) \
+                            and f[3] != t[3] and type(f[3][1]) is type(t[3][1]):
+                        return t[1] == "!="
             return None
         key = ("truthy", t)
         if key in st.facts:
